@@ -87,10 +87,20 @@ def one_call(prog, Model, n, t, o, rng, rep, lines, expect, txt):
     exp = g.expected_classes(prog)
     eqs = [st for st in prog.statements if isinstance(st, g.Equation)]
     terms = [(tm.name, tm.offset) for st in eqs for tm in [st.lhs] + g.terms_of(st.rhs)]
-    m = Model(range(100, 100 + n))
+    # where the instance comes from must not matter: constructed, a copy of a used one, or a used one reindexed down
+    prov = rng.choice(sc.PROVENANCES)
+    m = sc.with_provenance(Model, range(100, 100 + n), prov, names=())
     data = g.random_data(rng, prog, n)
+    shared = rng.random() < 0.25      # the caller hands ONE float array to several variables: each must get its own copy
+    if shared and data:
+        one = np.array(next(iter(data.values())), dtype=float)
+        data = {k: one for k in data}
     for k, v in data.items():
-        m[k] = v
+        if shared and rng.random() < 0.5:
+            setattr(m, k, v)
+        else:
+            m[k] = v
+    rep.dist[f'provenance:{prov}' + (':shared-array' if shared else '')] += 1
     if rng.random() < 0.08:
         nm = rng.choice(m.names)
         m[nm][rng.randrange(n)] = rng.choice([np.nan, np.inf])
